@@ -63,6 +63,7 @@ func runC02(c *Ctx) {
 	epbPkg := repoPath("proto/endorsement")
 	gcePkg := repoPath("gcetcbendorsement")
 	sl := flow.NewSlicer(c.P)
+	_ = sl
 	optMeas := func(v ssa.Value) bool { return flow.IsFieldLoad(v, verifyPkg, "SNPOptions", "Measurement") }
 	optCount := func(v ssa.Value) bool { return flow.IsFieldLoad(v, verifyPkg, "SNPOptions", "ExpectedLaunchVMSAs") }
 	svsm := func(v ssa.Value) bool { return flow.IsFieldLoad(v, epbPkg, "VMSevSnp", "SvsmMeasurement") }
@@ -508,7 +509,11 @@ func runC02(c *Ctx) {
 						break
 					}
 					if ex, ok := val.(*ssa.Extract); ok && ex.Index == 0 {
-						if lk, ok := ex.Tuple.(*ssa.Lookup); ok && lk.CommaOk && sl.Derives(lk.Index, launch) && sl.Derives(lk.X, measMap) {
+						// (the lookup may sit in a helper that is handed the count and the endorsement: parameters are followed
+						// to the arguments at the call sites)
+						psl := flow.NewSlicer(c.P)
+						psl.LiftParams = 2
+						if lk, ok := ex.Tuple.(*ssa.Lookup); ok && lk.CommaOk && psl.Derives(lk.Index, launch) && psl.Derives(lk.X, measMap) {
 							why = "the store is not dominated by the comma-ok true edge of that lookup"
 							for _, cf := range dominatingConds(at) {
 								if oke, ok := cf.Cond.(*ssa.Extract); ok && oke.Tuple == lk && oke.Index == 1 && cf.Val {
